@@ -30,6 +30,7 @@ abbrev Bytes := List Nat
 
 /-! ## `str::replace` as split-and-join -/
 
+set_option linter.unusedVariables false in
 /-- split `s` on non-overlapping left-to-right occurrences of `pat` (as Rust's `match_indices`). -/
 def splitPat (pat : Bytes) (acc : Bytes) (s : Bytes) : List Bytes :=
   match s with
@@ -279,6 +280,9 @@ def claim (C : Crypto) (s : State) (sender eth sig : Bytes) : Except Err State :
 
 /-- `query(AirdropEligible{eth_address})` -/
 def airdropEligible (s : State) (eth : Bytes) : Bool := s.eligible.contains eth
+
+/-- whitelist-immutable `query(AddressCount)`: the list is sorted and de-duplicated at instantiate -/
+def addressCount (s : State) : Nat := s.eligible.eraseDups.length
 
 inductive Op where
   | claim (sender eth sig : Bytes)
